@@ -74,6 +74,15 @@ Definition entry (sel : Z) (toks : list Z) : list Z :=
   | 5 => match run_dec dHistory toks with
          | Some (ss, steps) => eHistory (history ss steps)
          | None => bad_input end
+  (* one controller, a sequence of syncs: the PUBLISHED NodeShards after every sync *)
+  | 6 => match run_dec dHistory toks with
+         | Some (ss, steps) => eHistory (publish_history ss steps)
+         | None => bad_input end
+  (* the same, with every sync after the first driven through syncHandler's fallback
+     (expired assignment cache -> calculateAndApplyAssignment): the same function *)
+  | 7 => match run_dec dHistory toks with
+         | Some (ss, steps) => eHistory (publish_history ss steps)
+         | None => bad_input end
   (* laws evaluated on the implementation's own results: must answer [1] *)
   | 101 => match run_dec dResult toks with
            | Some r => eBool (law_disjoint r) | None => bad_input end
@@ -93,6 +102,16 @@ Definition entry (sel : Z) (toks : list Z) : list Z :=
   (* a reconcile on a reused manager against a fresh manager on the same input *)
   | 109 => match run_dec (dPair dResult dResult) toks with
            | Some (a, b) => eBool (law_deterministic a b) | None => bad_input end
+  (* the published NodeShards after a sync: pairwise disjoint; every node eligible on the current metrics *)
+  | 110 => match run_dec dResult toks with
+           | Some r => eBool (law_disjoint r) | None => bad_input end
+  | 111 => match run_dec (dPair dInput dResult) toks with
+           | Some ((ns, m, ss), r) => eBool (law_eligible ns m ss r) | None => bad_input end
+  (* bound / eligibility against the configured policy entries *)
+  | 112 => match run_dec (dPair dInput dResult) toks with
+           | Some ((_, _, ss), r) => eBool (law_bounded_config ss r) | None => bad_input end
+  | 113 => match run_dec (dPair dInput dResult) toks with
+           | Some ((ns, m, ss), r) => eBool (law_eligible_config ns m ss r) | None => bad_input end
   | 108 => match run_dec (dPair dInput dResult) toks with
            | Some ((ns, m, ss), r) => eBool (law_order_tol ns m ss r) | None => bad_input end
   | _ => bad_input
